@@ -46,6 +46,10 @@ def gen_ops(tier, rng):
             add(f, d, p)
     for d in (range(1, 256, 5) if tier == "quick" else range(1, 256)):
         add("xor", d, 1)
+    # option lists with several matrix options: the last one decides which code (and hence whether it is MDS) is built
+    for combo in ["par1+jerasure", "par1+cauchy", "cauchy+jerasure", "jerasure+cauchy", "par1+jerasure+cauchy", "par1+cauchy+jerasure"]:
+        for (d, p) in [(4, 4), (10, 4), (17, 3)]:
+            ops.append((f"gen {combo} {d} {p}" + (" dump" if d * p <= 64 else ""), {"cat": "option-order", "fam": combo.split("+")[-1], "d": d, "p": p}))
     if tier == "thorough":
         for f in FAMS:
             for d in range(1, 41):
